@@ -603,7 +603,7 @@ def run(res, tier):
            message='RemoveParameter: paramName is used at line %s after _parameters.RemoveName(paramName) (line %s); when the caller passes the field-name String that lives inside _parameters '
                    '(wildcard REMOVEPARAMETERS) the removal clears it, every later comparison fails and e.g. the reflect-to-self flag is never switched off' % ((bad[1].get('l'), bad[0].get('l')) if bad else ('?', '?')))
     from . import sm_state
-    fsm = common.load_units(res, ['regex/StringMatcher.cpp'], fn_regex=r'^muscle::(StringMatcher::|RemoveEscapeChars$)')
+    fsm = common.load_units(res, ['regex/StringMatcher.cpp'], fn_regex=r'^muscle::(StringMatcher::|RemoveEscapeChars$|CanWildcardStringMatchMultipleValues$)')
     res.units = res.units + ['reflector/StorageReflectSession.cpp', 'reflector/DumbReflectSession.cpp', 'reflector/AbstractReflectSession.cpp']
     # the direct-lookup fast path turns an escaped literal clause into a node name with RemoveEscapeChars(): its escape flag must have the parity the matcher's own scanners have
     # (the rule is C15's ESCAPE-PARITY, judged here for the one function routing depends on)
@@ -612,6 +612,7 @@ def run(res, tier):
     names_ = [re.escape(h_.q) for h_ in IP.scope(fsm, rec_, r'^muscle::\w+$')]          # RemoveEscapeChars and the file-static helpers its loop body may have been moved into
     if escape_parity_scanners(res, fsm, 'UNIQUE-AGREE', only='^(' + '|'.join(names_) + ')$') < 1:
         raise AnalysisBroken('UNIQUE-AGREE: the escape flag of RemoveEscapeChars was not found')
+    only_commas_rule(res, fsm)
     sm_state.ranges_reset_rule(res, fsm)     # the per-clause matchers of a routing path are recycled objects: a stale numeric range misroutes every later Message
     res.explanation = ('Static decision of the routing structure: sender-identity overwrite dominates all three routing calls; on every path to a delivery either the target differs from the sender or the '
                        'reflect-to-self flag holds (path enumeration over the guard\'s short-circuit blocks); the routing callback always returns the session level so each session is hit once; the literal-lookup '
@@ -619,3 +620,61 @@ def run(res, tier):
                        'Equivalence of traversal and brute-force matching, and per-sender ordering, are not decided.')
     res.assumptions = ['a traversal callback returning NODE_DEPTH_SESSIONNAME makes DoTraversal skip to the next session node']
     res.not_decided = ['traversal == brute-force matching for every pattern set', 'per-sender FIFO ordering', 'filter evaluation']
+
+
+def only_commas_rule(res, fsm):
+    """the traversal replaces matching by a literal hash lookup of each comma-separated part when CanWildcardStringMatchMultipleValues() reports "commas are the only special characters":
+    that answer is known only when the scan has seen the whole clause"""
+    res.rule('ONLY-COMMAS', 'CanWildcardStringMatchMultipleValues: once the only-commas out-parameter was given a value other than the literal false, no return inside the scan loop (the early '
+                            '"another wildcard was found" exit) is reachable without it being set back to false', floor=1)
+    fs = [g for g in fsm.funcs.values() if g.full and g.q == 'muscle::CanWildcardStringMatchMultipleValues' and g.file.endswith('.cpp')]      # the scanner, not the String overload that forwards to it
+    if not fs:
+        raise AnalysisBroken('ONLY-COMMAS: CanWildcardStringMatchMultipleValues has no analysed body')
+    f = fs[0]
+    outp = [p_['d'] for p_ in f.params if 'bool *' in (f.ptype(p_) or '')]
+    if not outp:
+        raise AnalysisBroken('ONLY-COMMAS: no bool* out-parameter')
+    d = outp[0]
+    raises, lowers = [], []
+    for n in f.walk():
+        if n['k'] == 'BinaryOperator' and n.get('op') == '=':
+            l = A.strip_casts(n['ch'][0])
+            if l['k'] == 'UnaryOperator' and l.get('op') == '*' and A.strip_casts(l['ch'][0]).get('d') == d:
+                r = A.strip_casts(n['ch'][1])
+                (lowers if (r['k'] == 'CXXBoolLiteralExpr' and not r.get('v')) else raises).append(n)
+    if not raises:
+        raise AnalysisBroken('ONLY-COMMAS: the out-parameter is never given a non-false value')
+    in_loop = set()
+    for (h, body) in C.natural_loops(f):
+        in_loop |= set(body)
+    early = [r for r in f.walk() if r['k'] == 'ReturnStmt' and any(a_['k'] in ('WhileStmt', 'ForStmt', 'DoStmt') for a_ in r.ancestors())]
+    if not early:
+        raise AnalysisBroken('ONLY-COMMAS: no return inside the scan loop')
+    lower_blocks = set(p_[0] for p_ in (P.pos_of(f, n) for n in lowers) if p_)
+    def feasible(asg):
+        # the flag is raised through the pointer, so on every path that continues from there the pointer is not NULL
+        for (cid, truth) in asg.items():
+            core, pol = P.strip_not(f.nodes[cid])
+            core = G.local_init(f, core)
+            if core['k'] == 'DeclRefExpr' and core.get('d') == d and (pol == truth) is False:
+                return False
+            for (cn, t) in A.implied_atoms(f.nodes[cid], truth):
+                c2, p2 = P.strip_not(cn, t)
+                if c2['k'] == 'DeclRefExpr' and c2.get('d') == d and p2 is False:
+                    return False
+        return True
+    for (i, w) in enumerate(sorted(raises, key=lambda n: n['i'])):
+        bad = []
+        wp = P.pos_of(f, w)
+        for r in early:
+            rp = P.pos_of(f, r)
+            if wp is None or rp is None or rp[0] in lower_blocks and any(P.pos_of(f, n)[0] == rp[0] and P.pos_of(f, n)[1] < rp[1] for n in lowers):
+                continue
+            paths, complete = C.paths_between(f, wp, rp, avoid_blocks=lower_blocks - set([wp[0], rp[0]]))
+            if not complete or any(feasible(asg) for asg in paths):
+                bad.append(r)
+        res.ob('ONLY-COMMAS', f.where(w), 'the only-commas answer given at line %s cannot be followed by the early another-wildcard return' % w.get('l'), not bad, function=f.q,
+               key='ONLY-COMMAS|%s|%d' % (f.q, i), how='%d early return(s) inside the scan loop examined' % len(early),
+               message='CanWildcardStringMatchMultipleValues reports "commas are the only special characters" (line %s) and can still take the early return at line %s, where a wildcard was found '
+                       'further on: for a clause like `a,b*` the traversal then looks up children literally named `a` and `b*` instead of matching, and nodes the pattern selects never get the '
+                       'Message' % (w.get('l'), bad[0].get('l') if bad else '?'))
